@@ -12,7 +12,7 @@ for l in open('known_findings.jsonl'):
     v=json.loads(l)
     if v.get('kind')!='fixed': continue
     files=re.findall(r"(findings/prefix-replays/[\w.-]+\.json)", v['what'])
-    f=re.search(r"fails on ([0-9a-f]{7})", v['what'])
+    f=re.search(r"fails on ([0-9a-f]{7}(?:~1)?)", v['what'])
     pre=f.group(1) if f else v['commit']+"~1"
     for x in files: print(pre, x, v['property'], v['commit'])
 PY
